@@ -41,7 +41,7 @@ type c11Scenario struct {
 }
 
 // keys include pairs equal up to letter case / width, which a sloppy comparison would tie
-var c11Keys = []string{"甲", "乙", "丙", "丁", "A", "a", "B", "k1", "K1", "10"}
+var c11Keys = []string{"甲", "乙", "丙", "丁", "A", "a", "B", "k1", "K1", "10", "1.0", "甲 ", "长长长长长长长长长长的键", "Ａ", "b", "戊", "己"}
 
 type zgen struct {
 	t    *zsim.Tape
@@ -101,6 +101,9 @@ func (g *zgen) dict(depth int, keys []string) string {
 
 func (g *zgen) keys() []string {
 	n := 1 + g.t.Draw(5)
+	if g.t.Draw(8) == 7 {
+		n = 9 + g.t.Draw(8) // more than one bucket of a Go map
+	}
 	start := g.t.Draw(len(c11Keys))
 	var ks []string
 	for i := 0; i < n && i < len(c11Keys); i++ {
@@ -255,7 +258,21 @@ func (g *zgen) snippet(lines *[]string, usesJSON *bool) {
 		}
 	case 5: // object with several properties
 		cls := fmt.Sprintf("类型%s", g.v())
-		ks := g.keys()
+		var ks []string
+		for _, k := range g.keys() {
+			ok := true
+			for _, bad := range []string{" ", ".", "Ａ", "长"} {
+				if strings.Contains(k, bad) {
+					ok = false
+				}
+			}
+			if ok {
+				ks = append(ks, k) // only keys that are valid as part of a property name
+			}
+		}
+		if len(ks) == 0 {
+			ks = []string{"甲"}
+		}
 		add(fmt.Sprintf("定义%s：", cls))
 		for _, k := range ks {
 			add(fmt.Sprintf("\t其P%s = %s", k, g.value(1)))
